@@ -67,12 +67,24 @@ def check(index, ctx):
                                                                                    or (e.get("right_origin") == ["reg_eps"] and any(o.startswith("eye#") for o in e.get("left_origin", []))))]
                 add = [e for e in ev if e["kind"] == "op" and e["op"] == "add" and (("reg_eps" in e.get("left_origin", [])) != ("reg_eps" in e.get("right_origin", [])))
                        and any(o.startswith("svd_S#") for o in e.get("left_origin", []) + e.get("right_origin", []))]
-                okr = bool(mul) and bool(add) and "reg_eps" in P_or and any(o.startswith("svd_S#") for o in P_or) and "norm_eps" not in P_or
+                # below the norm_eps threshold the normalised Gramian is the zero matrix (possibly returned early, without touching the decomposition)
+                below = any(e["kind"] == "decision" and e.get("outcome") is not None and any(c.get("kind") == "scale_branch" and "norm_eps" in (c.get("right_origin", []) + c.get("left_origin", []))
+                                                                                                 for c in e.get("compares", []))
+                            and (bool(e["outcome"]) == any(c.get("op") in ("Lt", "LtE") and c.get("right_origin") == ["norm_eps"] or c.get("op") in ("Gt", "GtE") and c.get("left_origin") == ["norm_eps"]
+                                                           for c in e.get("compares", []))) for e in ev)
+                add_any = [e for e in ev if e["kind"] == "op" and e["op"] == "add" and (("reg_eps" in e.get("left_origin", [])) != ("reg_eps" in e.get("right_origin", [])))]
+                from_gramian = any(o.startswith("svd_S#") for o in P_or) or below
+                okr = bool(mul) and bool(add or (below and add_any)) and "reg_eps" in P_or and from_gramian and "norm_eps" not in P_or
                 whyr = ""
                 if not okr:
                     whyr = (f"reg_eps is not the scalar of an identity added to the normalised Gramian handed to solve_qp as P (P derives from {P_or}; "
                             f"mul-by-identity sites: {[e['text'] for e in mul][:2]}, add sites: {[e['text'] for e in add][:2]})")
-                ctx.require(okr, "R1", f"{name}: reg_eps regularises the Gramian of the QP" if not okr else pk + " reg_eps", "P = normalised Gramian + reg_eps·I", whyr, qp["loc"])
+                if okr:
+                    ctx.ok("R1", pk + " reg_eps", "P = normalised Gramian + reg_eps·I", qp["loc"])
+                elif "reg_eps" not in P_or or "norm_eps" in P_or:
+                    ctx.violated("R1", f"{name}: reg_eps regularises the Gramian of the QP", whyr, qp["loc"])
+                else:
+                    ctx.undecided("R1", f"{name}: reg_eps regularises the Gramian of the QP", "reg_eps reaches P, but not through a recognised `Gramian + reg_eps·I` form: " + whyr, qp["loc"])
                 # ---- pref_vector: lower bound of the QP
                 h_or = qp["origins"].get("h", [])
                 hp = qp["polys"].get("h")
@@ -82,8 +94,18 @@ def check(index, ctx):
                 else:
                     okp = hp is not None and hp == -(m.inverse())
                     whyp = f"without pref_vector the QP's bound h should be -1/m (uniform), found closed form {hp}"
-                ctx.require(okp, "R1", f"{name}({'pref' if given else 'default'}): preference vector is the QP's lower bound" if not okp else pk + " pref_vector",
-                            "h = -u", whyp, qp["loc"])
+                lb_or = qp["origins"].get("lb", [])
+                if not okp and qp["polys"].get("h") is None and not h_or and lb_or:
+                    # solve_qp(P, q, lb=u): the same constraint v >= u written as a lower bound
+                    lbp = qp["polys"].get("lb")
+                    okp = ("pref_vector" in lb_or) if given else (lbp is not None and lbp == m.inverse())
+                    whyp = f"the QP's lower bound lb derives from {lb_or} (closed form {lbp})"
+                if okp:
+                    ctx.ok("R1", pk + " pref_vector", "h = -u", qp["loc"])
+                elif not given and hp is None and (qp["polys"].get("lb") is None):
+                    ctx.undecided("R1", f"{name}(default): preference vector is the QP's lower bound", "the bound handed to the QP has no closed form the engine could derive (expected -1/m)", qp["loc"])
+                else:
+                    ctx.violated("R1", f"{name}({'pref' if given else 'default'}): preference vector is the QP's lower bound", whyp, qp["loc"])
                 zq = qp["degs"].get("q") == "Z" or (qp["polys"].get("q") is not None and qp["polys"]["q"].const_value() == 0)
                 ctx.require(zq, "R1", f"{name}: QP has no linear term" if not zq else pk + " q=0", "q = 0", f"linear term q of the QP is not zero ({qp['polys'].get('q')})", qp["loc"])
                 # ---- solver
@@ -97,8 +119,16 @@ def check(index, ctx):
                     Uax = qp["axes"].get("h")
                     red = [e for e in ev if e["kind"] == "sop" and e["sop"] == "reduce" and e["fn"] == "sum" and e["in_axes"] == ["R", "R"] and e["over_pos"] == [0]
                            and e["function"].endswith("_UPGradWrapper.forward")]
-                    ctx.require(len(red) == 1, "R2", "UPGrad: projected weight rows are summed over the axis indexing the projected vectors" if len(red) != 1 else pk + " sum(dim=0)",
-                                "sum over dim 0 of W", "the rows of projected weights are not reduced by a single sum over dim 0", cls.loc())
-    ctx.floor("returning paths of UPGrad/DualProj", n, 8)
+                    other_red = [e for e in ev if e["kind"] == "sop" and e["sop"] == "reduce" and e["function"].endswith("_UPGradWrapper.forward") and "solve_qp" in e.get("in_origin", []) and e not in red]
+                    if len(red) == 1 and not other_red:
+                        ctx.ok("R2", pk + " sum(dim=0)", "sum over dim 0 of W", cls.loc())
+                    elif other_red or len(red) > 1:
+                        w_ = (other_red or red)[0]
+                        ctx.violated("R2", "UPGrad: projected weight rows are summed over the axis indexing the projected vectors",
+                                     f"the projected weights are reduced by `{w_['text']}` ({w_['fn']} over {w_.get('over')}) instead of a single sum over dim 0", w_["loc"])
+                    else:
+                        ctx.undecided("R2", "UPGrad: projected weight rows are summed over the axis indexing the projected vectors",
+                                      "no reduction of the projected weights was recognised (the sum may be written as a loop)", cls.loc())
+    ctx.floor("returning paths of UPGrad/DualProj", n, 4)
     _agg.common_evidence(ctx, index)
     ctx.assumptions.append("exactness and uniqueness of the QP solution, and the two 'consequently' clauses, are numerical and NOT decided")
